@@ -58,5 +58,16 @@ def run(ctx):
         # scale derived from the fractional component's length
         sc = [t for _, t in b.calls(r"::checked_sub$") if any(a.kind == "call" and a.what.endswith("::len") for a in b.origins(t["args"][1], deep=True))]
         ctx.ob(f"{short}|scale-from-fraction-length", len(sc) >= 1, "the scale is SCALE - len(fractional component)", b.loc())
+    ctx.rule("sign of a negative numeral whose integral part is all zeros (`-0.5`, `-00.5`): the big-integer parser returns 0 and loses it, so "
+             "from_str must take the sign from the text — a prefix test (`starts_with` / `strip_prefix`) on the integral component — not from an "
+             "equality with one particular spelling")
+    for ty in ("decimal::Decimal", "precise_decimal::PreciseDecimal"):
+        fs = [x for x in F.fns if re.search(r"^<radix_common::math::" + ty + r" as core::str::traits::FromStr>::from_str$", x)]
+        for x in fs[:1]:
+            b = ctx.body(x)
+            pre = b.calls(r"str::starts_with$|<impl str>::starts_with$|str::strip_prefix$|<impl str>::strip_prefix$")
+            guards = [bb for bb, tru, fal, si in b.call_bool_guards(r"starts_with$")]
+            ctx.ob(f"{ty.split('::')[1]}|sign-taken-from-the-text-prefix", len(pre) >= 1 and (bool(guards) or any("strip_prefix" in t["f"] for _, t in pre)),
+                   f"{len(pre)} prefix test(s) on the numeral's text, {len(guards)} of them branching", b.loc())
     ctx.assume("print/parse round-trip equality and exactness of the parsed value are value-level and NOT decided; only the digits-only acceptance "
                "condition for the fractional component and the liveness of the rejections are")
